@@ -148,6 +148,10 @@ CATALOGUE: list[tuple] = [
     ("linecol-column-zero-based", ["C14"], PAIRS, "            self.pos - (cumulative_length - len(lines[target_line_index])) + 1\n        )\n        return line_number, column_number", "            self.pos - (cumulative_length - len(lines[target_line_index]))\n        )\n        return line_number, column_number", "fire", "line_col"),
     ("span-lines-off-by-one", ["C14"], PAIRS, "        return lines[start_line_number - 1 : end_line_number]", "        return lines[start_line_number - 1 : end_line_number - 1]", "fire", "Span.lines"),
     ("S-linecol-count-rfind-form", ["C14"], PAIRS, "        lines = self.text.splitlines(keepends=True)\n        cumulative_length = 0\n        target_line_index = -1\n\n        for i, line in enumerate(lines):\n            cumulative_length += len(line)\n            if self.pos < cumulative_length:\n                target_line_index = i\n                break\n\n        if target_line_index == -1:\n            # At the end of the text: on a new line if the text is empty or\n            # ends with a line break, else just after the last line.\n            if lines and lines[-1].splitlines()[0] == lines[-1]:\n                return len(lines), len(lines[-1]) + 1\n            return len(lines) + 1, 1\n\n        # 1-based\n        line_number = target_line_index + 1\n        column_number = (\n            self.pos - (cumulative_length - len(lines[target_line_index])) + 1\n        )\n        return line_number, column_number", "        before = self.text[: self.pos]\n        return before.count(\"\\n\") + 1, self.pos - before.rfind(\"\\n\")", "silent", ""),
+    # ---- C01 DIFF (both siblings evaluated on scripted children)
+    ("push-gen-slice-from-zero", ["C01"], TERMINALS, 'gen.writeln(f"state.push(state.input[{start_var} : state.pos])")', 'gen.writeln("state.push(state.input[: state.pos])")', "fire", "Push"),
+    ("peek-gen-advances-by-one", ["C01"], TERMINALS, '        with gen.block():\n            gen.writeln(f"state.pos += len({peeked})")\n            gen.writeln(f"{matched_var} = True")\n        gen.writeln("else:")', '        with gen.block():\n            gen.writeln("state.pos += 1")\n            gen.writeln(f"{matched_var} = True")\n        gen.writeln("else:")', "fire", "Peek"),
+    ("S-peek-parse-explicit-none-test", ["C01", "C05"], TERMINALS, "        with suppress(IndexError):\n            value = state.user_stack.peek()\n\n            if state.input.startswith(value, state.pos):\n                state.pos += len(value)\n                return True\n\n            state.fail(value)\n        return False\n\n    def generate(self, gen: Builder, matched_var: str, pairs_var: str) -> None:\n        \"\"\"Emit Python code for a PEEK expression.\"\"\"\n        gen.writeln(\"# <Peek>\")", "        value = state.peek()\n        if value is None:\n            return False\n        if state.input.startswith(value, state.pos):\n            state.pos += len(value)\n            return True\n        state.fail(value)\n        return False\n\n    def generate(self, gen: Builder, matched_var: str, pairs_var: str) -> None:\n        \"\"\"Emit Python code for a PEEK expression.\"\"\"\n        gen.writeln(\"# <Peek>\")", "silent", ""),
 ]
 
 
